@@ -28,6 +28,7 @@ import (
 	"verif/harness/internal/gw"
 	"verif/harness/internal/reg"
 	"verif/harness/internal/s3c"
+	"verif/harness/props/concup"
 )
 
 func init() { reg.Register("C06", "exploration", Run) }
@@ -1113,6 +1114,23 @@ func Run(c *ev.Ctx) int {
 			defer wg.Done()
 			runStrat(c, x.strat, x.cases)
 		}()
+	}
+	// concurrent lane: integrity must not depend on what else the process decodes at the same moment
+	rc := c.Rng("concurrent")
+	modes := []string{"plain", "fewprocs", "race"}
+	for _, strat := range []string{"otmp", "nootmp"} {
+		for k, mode := range modes {
+			if !c.Thorough() && strat == "nootmp" && mode != "fewprocs" {
+				continue
+			}
+			seed := rc.Int63n(1 << 40)
+			wg.Add(1)
+			go func() {
+				defer wg.Done()
+				concup.Run(c, concup.Opt{ID: fmt.Sprintf("concurrent/%s/%d", strat, k), Name: strat, Store: strat,
+					GW: gw.Config{NoOTmp: strat == "nootmp"}, Mode: mode, Seed: seed, Corrupt: true, PartsToo: true})
+			}()
+		}
 	}
 	wg.Wait()
 	return c.Finish("every case = uncorrupted control (same encoding, sibling key; must be 2xx and read back byte-identical with the declared length) + one corrupted PutObject/UploadPart whose status, and the key's GET/HEAD (parts: ListParts + Complete + GET) afterwards, are compared with the previous state; distinct = (operation, mode, integrity field, corruption, key state) whose control succeeded; temp-file strategies O_TMPFILE and --disableotmp", c.Pick(200, 900))
